@@ -3,16 +3,16 @@ from cvxopt.modeling import variable, op
 # (a) variables: file becomes unreadable
 a = variable(1, 'weight1'); b = variable(1, 'weight2')
 lp = op(a + 2*b, [a >= 0, b >= 1])
-lp.tofile('/tmp/wt5h/C14/hunt/tmp/r3a.mps')
+lp.tofile('/var/tmp/fz/r3a.mps')
 try:
-    op().fromfile('/tmp/wt5h/C14/hunt/tmp/r3a.mps'); print('(a) read ok')
+    op().fromfile('/var/tmp/fz/r3a.mps'); print('(a) read ok')
 except Exception as e: print('(a) fromfile raised', type(e).__name__, e)
 # (b) constraints: silently merged into one wrong row
 a = variable(1, 'a'); b = variable(1, 'b')
 c1 = (a >= 0); c1.name = 'lower_a'; c2 = (b >= 1); c2.name = 'lower_b'
 lp = op(a + 2*b, [c1, c2])
-lp.tofile('/tmp/wt5h/C14/hunt/tmp/r3b.mps')
-lp2 = op(); lp2.fromfile('/tmp/wt5h/C14/hunt/tmp/r3b.mps')
+lp.tofile('/var/tmp/fz/r3b.mps')
+lp2 = op(); lp2.fromfile('/var/tmp/fz/r3b.mps')
 print('(b)', lp, '->', lp2)
 from cvxopt import solvers; solvers.options['show_progress'] = False
 lp.solve(); print('(b) original:', lp.status, lp.objective.value()[0])
@@ -22,15 +22,15 @@ c = lp2.inequalities()[0]; print('(b) merged row:', {v.name: m[0] for v, m in c.
 # (c) no truncation needed: default label str(k) of an unnamed variable equals a user name
 a = variable(1, '1'); b = variable(1)
 lp = op(a + 2*b, [a >= 0, b >= 1])
-lp.tofile('/tmp/wt5h/C14/hunt/tmp/r3c.mps')
+lp.tofile('/var/tmp/fz/r3c.mps')
 try:
-    op().fromfile('/tmp/wt5h/C14/hunt/tmp/r3c.mps'); print('(c) read ok')
+    op().fromfile('/var/tmp/fz/r3c.mps'); print('(c) read ok')
 except Exception as e: print('(c) fromfile raised', type(e).__name__, e)
 # (d) the library's own test file cannot be written and read back
 lp = op()
 import io, contextlib
 with contextlib.redirect_stdout(io.StringIO()): lp.fromfile('/tmp/wt5h/C14/tests/boeing2.mps')
-lp.tofile('/tmp/wt5h/C14/hunt/tmp/r3d.mps')
+lp.tofile('/var/tmp/fz/r3d.mps')
 try:
-    op().fromfile('/tmp/wt5h/C14/hunt/tmp/r3d.mps'); print('(d) read ok')
+    op().fromfile('/var/tmp/fz/r3d.mps'); print('(d) read ok')
 except Exception as e: print('(d) boeing2 write/read raised', type(e).__name__, e)
